@@ -20,11 +20,15 @@ def build(case, override=None):
     override = override or {}
     op = OperatorTemplate(name="op", equations=["x' = -k*x + c + r_in"],
                           variables={"x": "output(0.0)", "k": 1.0, "c": 0.0, "r_in": "input(0.0)"}, path=None)
-    nodes = {}
+    nodes, shared = {}, {}
     for i, (n, k, c, x0) in enumerate(case["nodes"]):
-        nodes[n] = NodeTemplate(name=n, path=None, operators={op: {"k": float(override.get(("k", i), Fr(k))),
-                                                                   "c": float(override.get(("c", i), Fr(c))),
-                                                                   "x": float(Fr(x0))}})
+        vals = (float(override.get(("k", i), Fr(k))), float(override.get(("c", i), Fr(c))), float(Fr(x0)))
+        # share=True: nodes with identical values are ONE NodeTemplate object (what from_yaml gives for a repeated template)
+        if case.get("share") and vals in shared:
+            nodes[n] = shared[vals]
+        else:
+            nodes[n] = NodeTemplate(name=n, path=None, operators={op: {"k": vals[0], "c": vals[1], "x": vals[2]}})
+            shared[vals] = nodes[n]
     names = [n for n, *_ in case["nodes"]]
     edges = [(f"{names[s]}/op/x", f"{names[t]}/op/r_in", None, {"weight": float(override.get(("w", j), Fr(w)))})
              for j, (s, t, w) in enumerate(case["edges"])]
@@ -69,6 +73,9 @@ def impl(case):
         else:
             pmap[key] = {"edges": [(f"{names[s]}/op/x", f"{names[t]}/op/r_in") for s, t in spec["edges"]], "vars": ["weight"]}
     grid = {key: [float(Fr(v)) for v in vals] for key, vals in case["grid"]}
+    if case.get("df_index") is not None:          # the grid as a DataFrame whose integer index is a permutation
+        import pandas as pd
+        grid = pd.DataFrame(grid, index=list(case["df_index"]))
     outputs = {k: p for k, p in case["outputs"]}
     pyr.reset_pyrates()
     try:
@@ -152,7 +159,16 @@ def gen_case(rng):
     else:
         outs = rng.sample(range(nn), rng.randint(1, 2))
         outputs = [[["u", "v"][j], f"{NAMES[i]}/op/x"] for j, i in enumerate(outs)]
-    return dict(nodes=nodes, edges=edges, pmap=pmap, grid=grid, permute=permute, outputs=outputs, vectorize=rng.random() < 0.6)
+    case = dict(nodes=nodes, edges=edges, pmap=pmap, grid=grid, permute=permute, outputs=outputs, vectorize=rng.random() < 0.6)
+    if rng.random() < 0.45:                      # two nodes with identical values, held as one shared NodeTemplate object
+        i, j = rng.sample(range(nn), 2)
+        nodes[j][1:] = nodes[i][1:]
+        case["share"] = True
+    lens = {len(v) for _, v in grid}
+    if not permute and len(lens) == 1 and rng.random() < 0.4:
+        perm = list(range(len(grid[0][1]))); rng.shuffle(perm)
+        case["df_index"] = perm
+    return case
 
 def nrows(case):
     lens = [len(v) for _, v in case["grid"]]
@@ -181,24 +197,26 @@ Definition col_eqb (a b : col) := leqb String.eqb (fst a) (fst b) && leqb qeqb (
 (* observed: None = ValueError;  table rows, index names, columns of the DataFrame *)
 Definition observed := option (list (list Qc) * list string * list col).
 Record gcase := { base : circ; pm : list (list target); vals : list (list Qc); perm : bool; steps : nat;
-                  nodes : list string; reqs : list request; ob : observed;
+                  nodes : list string; reqs : list request; ob : observed; labs : option (list nat);
                   sep_grid : list col; sep_runs : list col }.
 Definition dt : Qc := mkq 1 8.
 Definition cname (r : nat) : string := "base_" ++ String (Ascii.ascii_of_nat (48 + r / 10)) (String (Ascii.ascii_of_nat (48 + r mod 10)) "").
 Definition cname' (r : nat) : string := if Nat.ltb r 10 then "base_" ++ String (Ascii.ascii_of_nat (48 + r)) "" else cname r.
 Definition opnode : node := [("op", ["x"; "k"; "c"; "r_in"])].
+(* the index label of row r: r, or the DataFrame's own integer label when the grid is passed as a DataFrame *)
+Definition row_labels (c : gcase) (R : nat) : list nat := match labs c with Some l => l | None => seq 0 R end.
 Definition union_tree (c : gcase) (R : nat) : tree :=
-  Circ (map (fun r => (cname' r, Circ (map (fun n => (n, Leaf opnode)) (nodes c)))) (seq 0 R)).
+  Circ (map (fun r => (cname' r, Circ (map (fun n => (n, Leaf opnode)) (nodes c)))) (row_labels c R)).
 Fixpoint index_of (s : string) (l : list string) : nat := match l with [] => 0 | x :: l' => if String.eqb s x then 0 else S (index_of s l') end.
 (* the trajectory of variable [cname; node; op; x] taken from per-time / per-row / per-node states *)
 Definition column_of (c : gcase) (R : nat) (states : nat -> nat -> nat -> Qc) (v : path) : list Qc :=
-  let r := index_of (nth 0 v "") (map cname' (seq 0 R)) in
+  let r := index_of (nth 0 v "") (map cname' (row_labels c R)) in
   let i := index_of (nth 1 v "") (nodes c) in
   map (fun j => states j r i) (seq 0 (steps c)).
 Definition expected (c : gcase) (rows : list (list Qc)) (states : nat -> nat -> nat -> Qc) : observed :=
   let R := List.length rows in
   let reqs' := map (fun q : request => let '(key, (pat, ov)) := q in (key, ("all" :: pat, ov))) (reqs c) in
-  Some (rows, map cname' (seq 0 R), map (fun lv => (fst lv, column_of c R states (snd lv))) (spec_columns (union_tree c R) DictForm reqs')).
+  Some (rows, map cname' (row_labels c R), map (fun lv => (fst lv, column_of c R states (snd lv))) (spec_columns (union_tree c R) DictForm reqs')).
 Definition obs_eqb (a b : observed) : bool :=
   match a, b with
   | None, None => true
@@ -270,6 +288,7 @@ def coq_case(case, out):
         g, s = sep_views(case, out)
     return (f"{{| base := {ccirc(case)}; pm := {pm}; vals := {vals}; perm := {cbool(case['permute'])}; steps := {cnat(steps)}; "
             f"nodes := {cstrs([n for n, *_ in case['nodes']])}; reqs := {clist(reqs)}; ob := {ob}; "
+            f"labs := {'None' if case.get('df_index') is None else '(Some ' + clist([cnat(i) for i in case['df_index']]) + ')'}; "
             f"sep_grid := {ccols(g)}; sep_runs := {ccols(s)} |}}")
 
 def model_compare(ctx, cases, outs, tag):
@@ -299,7 +318,7 @@ def usable(out):
 def check(ctx):
     pr = proof_gate(ctx, NEEDS)
     problem = proof_problem(pr)
-    n = 36 if ctx.tier == "quick" else 600
+    n = 48 if ctx.tier == "quick" else 600
     if ctx.replay:
         rp = json.load(open(ctx.replay))
         cases = [rp["case"]] if "case" in rp else []
@@ -325,11 +344,14 @@ def check(ctx):
                 edge_keys=sum(1 for c in cases if any(k == "edges" for _, k, _ in c["pmap"])),
                 multi_target_keys=sum(1 for c in cases if any(len(t) > 1 for t in targets(c).values())),
                 vectorized=sum(1 for c in cases if c["vectorize"]), rows=sum(nrows(c) for c in cases),
+shared_node_templates=sum(1 for c in cases if c.get("share")),
+                dataframe_grids_with_permuted_index=sum(1 for c in cases if c.get("df_index") is not None),
                 wildcard_outputs=sum(1 for c in cases if c["outputs"][0][1].startswith("all")))
     write_evidence(ctx, evaluations=len(cases), distinct_nontrivial=len(nt),
                    rule="random linear circuits (2-3 nodes, 1-3 edges, dyadic k, c, x0, weights) x random sweeps: 1-3 keys with disjoint target "
                         "sets (node parameters op/k, op/c on 1-3 nodes, both vars per key, edge weights on 1-2 edges), equal-length or permuted "
-                        "grids (a few of unequal length without permute -> ValueError), outputs by node name or 'all', vectorize on/off; "
+                        "grids (a few of unequal length without permute -> ValueError), zipped grids also passed as a DataFrame whose integer index "
+                        "is a permutation, nodes with identical values held as one shared NodeTemplate object, outputs by node name or 'all', vectorize on/off; "
                         "non-trivial = >= 2 rows; distinct = distinct canonical JSON",
                    samples=[cases[0] if cases else None],
                    extra=dict(input_distribution=hist, impl_vs_model_mismatches=len(badI), impl_vs_spec_mismatches=len(badS),
